@@ -40,7 +40,7 @@ def prepare():
 def budgets(tier):
     if tier == 'quick':
         return dict(shards=16, examples=40)
-    return dict(shards=16, examples=2500, deadline_s=3000)
+    return dict(shards=16, examples=7500, deadline_s=3000)
 
 
 def flag_bits(mask):
